@@ -12,7 +12,7 @@ from typing import (
     Union,
 )
 
-from numpy import logical_not, ndarray
+from numpy import empty_like, logical_not, ndarray
 
 from mygrad._utils import WeakRefIterable
 from mygrad.operation_base import Operation
@@ -273,7 +273,12 @@ class UnView(Operation):
         # dℒ/d(base) = [0., 0., g2]
         # dℒ/d(view) = [g0, g1]
         if index == 0:  # compute dℒ/d(base)
-            grad = grad.copy()
+            # The copy must have the memory layout of the base's data: the view
+            # functions yield views of it only then (e.g. reshaping an F-ordered
+            # array copies).
+            tmp = empty_like(placeholder_base.data, dtype=grad.dtype)
+            tmp[...] = grad
+            grad = tmp
             grad_view = grad
             for fn in self._view_fn_seq:
                 grad_view = fn(grad_view)
